@@ -368,6 +368,37 @@ func c15Jobs() []sjob {
 			}
 			x.obs = transcriptOf(key, r1)
 		}},
+		{"H13 reload introducing new command patterns while a command with pattern rules is being authorized", func(x *sx) {
+			w := newSWorldR(e.Cfg, nil)
+			w.serve()
+			// the new configuration turns the permit into a deny and matches through patterns no earlier configuration had
+			e2 := newREnv(defaultSecrets(), "")
+			for i := range e2.Cfg.Users {
+				if e2.Cfg.Users[i].Name == "own" {
+					e2.Cfg.Users[i].Commands = []config.Command{{Name: "configure", Match: []string{"exclusive", "t[a-z]+l"}, Action: config.DENY}}
+				}
+			}
+			var r1 [][]byte
+			var wg vsyncrt.WaitGroup
+			wg.Add(2)
+			c1 := w.W.NewConn(1, srvx.Addr4(10, 0, 0, 1, 1001))
+			vsyncrt.Go(func() {
+				sclient(w, c1, [][]byte{authorPkt(key, "own", 1, "service=shell", "cmd=configure", "cmd-arg=terminal"), authorPkt(key, "own", 2, "service=shell", "cmd=configure", "cmd-arg=terminal")}, &r1, true)
+				wg.Done()
+			})
+			vsyncrt.Go(func() { w.feed.ch.Send(e2.Cfg); wg.Done() })
+			wg.Wait()
+			w.shutdown()
+			if len(r1) == 2 {
+				a, b := replyStatus(key, r1[0], 2), replyStatus(key, r1[1], 2)
+				if !((a == 1 && b == 1) || (a == 0x10 && b == 0x10)) {
+					x.fail("H13/mixed-configuration", fmt.Sprintf("one connection was answered from two configurations: statuses %#x then %#x", a, b))
+				}
+			} else {
+				x.fail("H13/functional", fmt.Sprintf("%d replies for 2 requests", len(r1)))
+			}
+			x.obs = transcriptOf(key, r1)
+		}},
 		{"H8 two connections, same user, one session authorization each", func(x *sx) {
 			w := newSWorldR(e.Cfg, nil)
 			w.serve()
@@ -734,6 +765,8 @@ func c17Body(script []string, pending, patient bool, proxy ...bool) func(x *sx) 
 				conns[ev[1]-'0'].FireDeadline()
 			case 'X':
 				w.cancel()
+			case 'L':
+				w.L.Close() // the embedding program closes the listener itself (to stop accepting at once)
 			case 'A':
 				w.L.FireDeadline()
 			}
@@ -846,6 +879,14 @@ func c17Jobs(quick bool) []sjob {
 		jobs = append(jobs, sjob{"pacing, script (each event digested before the next) " + strings.Join(s, " "), c17Body(s, false, true)})
 		jobs = append(jobs, sjob{"pacing, sessions left pending, script (each event digested before the next) " + strings.Join(s, " "), c17Body(s, true, true)})
 		jobs = append(jobs, sjob{"pacing, proxy mode, script (each event digested before the next) " + strings.Join(s, " "), c17Body(s, false, true, true)})
+	}
+	// the embedding program closes the listener itself (L) while connections are idle, mid-packet or mid-exchange, before
+	// or after it cancels: Serve still returns only when every connection goroutine has finished
+	for _, s := range [][]string{{"C", "L"}, {"C", "P0", "L"}, {"C", "F0", "L"}, {"C", "L", "X"}, {"C", "X", "L"}, {"C", "C", "P1", "L"}, {"L", "C"}, {"C", "F0", "P0", "L", "X"}} {
+		s := s
+		jobs = append(jobs, sjob{"listener closed by the caller, script " + strings.Join(s, " "), c17Body(s, false, false)})
+		jobs = append(jobs, sjob{"listener closed by the caller, script (each event digested before the next) " + strings.Join(s, " "), c17Body(s, false, true)})
+		jobs = append(jobs, sjob{"listener closed by the caller, sessions left pending, script (each event digested before the next) " + strings.Join(s, " "), c17Body(s, true, true)})
 	}
 	// the same server built with SetUseProxy: a proxy line precedes every packet, P is a proxy line that is never terminated
 	for _, s := range c17Scripts(n - 1) {
